@@ -863,7 +863,10 @@ pub fn run(ctx: &mut Ctx) {
                     }
                 }
             }
-            m.encode()
+            let first = m.encode();
+            // a second encoding without edits (its references are another matter: finding F4; its *names* are compared below)
+            let second = guarded(|| m.encode()).ok();
+            (first, second)
         });
         // ------------------------------------------------------------ case line for the model
         for a in &plan {
@@ -929,6 +932,7 @@ pub fn run(ctx: &mut Ctx) {
             }
             Ok(b) => b,
         };
+        let (out, second) = out;
         let o = match decode(&out) {
             Ok(o) => o,
             Err(e) => {
@@ -981,6 +985,31 @@ pub fn run(ctx: &mut Ctx) {
 
         // ------------------------------------------------------------ oracle
         let mut fails: Vec<(&str, String, String)> = vec![];
+        // C29 on a second encoding: the order of the functions may differ from the first (finding F4), so names are compared by the entity
+        // they sit on - a function is identified by the marker constant its body starts with (imports by their import name)
+        match second.as_ref().map(|b| decode(b)) {
+            Some(Ok(o2)) => {
+                ctx.count("second-encode-names-compared");
+                let by_entity = |o: &Out| -> (Vec<(String, String)>, Vec<(String, u32, String)>) {
+                    let fs = fspace(o);
+                    let ent = |i: u32| fs.get(i as usize).cloned().unwrap_or("?".into());
+                    let mut f: Vec<(String, String)> = o.fnames.iter().map(|(i, n)| (ent(*i), n.clone())).collect();
+                    let mut l: Vec<(String, u32, String)> = o.lnames.iter().map(|((i, k), n)| (ent(*i), *k, n.clone())).collect();
+                    f.sort();
+                    l.sort();
+                    (f, l)
+                };
+                let ((f1, l1), (f2, l2)) = (by_entity(&o), by_entity(&o2));
+                if f1 != f2 {
+                    fails.push(("C29,C05", "function-names-on-other-functions-in-second-encode".into(), format!("first {f1:?} second {f2:?}")));
+                }
+                if l1 != l2 {
+                    fails.push(("C29,C05", "local-names-on-other-functions-in-second-encode".into(), format!("first {l1:?} second {l2:?}")));
+                }
+            }
+            // a second encoding that panics or cannot be decoded after re-indexing is finding F4 (C05's check reports it)
+            _ => ctx.count("second-encode-not-comparable"),
+        }
         let resolve_handle = |h: usize| -> String { format!("{}{}", spc(hs[h].sp), hs[h].uid) };
         let at = |sp: Sp, ix: u32| -> String {
             let v = match sp {
